@@ -226,9 +226,22 @@ func Harness_C19_set_tags_reserved_namespace() {
 	sess := verifNewSession("sid-o", owner, auth.LevelAuth, 16)
 	fx.attach(sess, owner, false)
 	extra := verifNondetString("tag", 4, 5, "eEm:y ")
+	// the list the client sends: the current tags plus one, without the reserved one, only the "delete" marker
+	// (how a client clears a list), the marker among other tags, or nothing but the extra tag
+	list := []string{"em:x1", "plain", extra}
+	switch verifChoose("listShape", 5) {
+	case 1:
+		list = []string{"plain", extra}
+	case 2:
+		list = []string{nullValue}
+	case 3:
+		list = []string{nullValue, extra}
+	case 4:
+		list = []string{extra}
+	}
 	msg := &ClientComMessage{Id: "r1", AsUser: owner.UserId(), AuthLvl: int(auth.LevelAuth), Original: t.name, RcptTo: t.name,
 		Timestamp: types.TimeNow(), sess: sess, init: true, MetaWhat: constMsgMetaTags,
-		Set: &MsgClientSet{Id: "r1", Topic: t.name, MsgSetQuery: MsgSetQuery{Tags: []string{"em:x1", "plain", extra}}}}
+		Set: &MsgClientSet{Id: "r1", Topic: t.name, MsgSetQuery: MsgSetQuery{Tags: list}}}
 	t.handleMeta(msg)
 	reserved := func(tags []string) int {
 		n := 0
